@@ -566,47 +566,54 @@ func runSolver(ctx context.Context, solver, file string, timeoutS int) SolverRes
 // allRes has every solver result obtained.
 func raceSolvers(file string, timeoutS int, all bool) (SolverResult, []SolverResult) {
 	var allRes []SolverResult
-	if !all {
-		first := timeoutS
-		if first > 4 {
-			first = 4
-		}
-		r := runSolver(context.Background(), "z3-new", file, first)
-		allRes = append(allRes, r)
-		if r.Status == "unsat" || r.Status == "sat" {
-			return r, allRes
-		}
-	}
 	ctx, cancel := context.WithCancel(context.Background())
 	defer cancel()
 	ch := make(chan SolverResult, len(solverBins))
-	for _, s := range solverBins {
-		s := s
-		go func() { ch <- runSolver(ctx, s, file, timeoutS) }()
+	start := func(s string) { go func() { ch <- runSolver(ctx, s, file, timeoutS) }() }
+	// z3-new first; the others join after a short head start unless an answer is already there
+	start("z3-new")
+	pending := 1
+	launched := false
+	launchRest := func() {
+		if !launched {
+			launched = true
+			start("z3")
+			start("cvc5")
+			pending += 2
+		}
 	}
+	if all {
+		launchRest()
+	}
+	timer := time.After(800 * time.Millisecond)
 	var best SolverResult
 	got := false
-	for range solverBins {
-		r := <-ch
-		allRes = append(allRes, r)
-		if r.Status == "unsat" || r.Status == "sat" {
-			if !got {
-				best = r
-				got = true
-				if !all {
-					cancel()
-					return best, allRes
+	for pending > 0 {
+		select {
+		case <-timer:
+			launchRest()
+			timer = nil
+		case r := <-ch:
+			pending--
+			allRes = append(allRes, r)
+			if r.Status == "unsat" || r.Status == "sat" {
+				if !got {
+					best = r
+					got = true
+					if !all {
+						return best, allRes
+					}
+				} else if r.Status != best.Status {
+					return SolverResult{Status: "error", Solver: "disagreement", Output: fmt.Sprintf("%s says %s, %s says %s", best.Solver, best.Status, r.Solver, r.Status)}, allRes
 				}
-			} else if all && r.Status != best.Status {
-				best = SolverResult{Status: "error", Solver: "disagreement", Output: fmt.Sprintf("%s says %s, %s says %s", best.Solver, best.Status, r.Solver, r.Status)}
-				return best, allRes
+			} else if !launched {
+				launchRest()
 			}
 		}
 	}
 	if got {
 		return best, allRes
 	}
-	// no definite answer
 	sort.Slice(allRes, func(i, j int) bool { return allRes[i].Solver < allRes[j].Solver })
 	r := allRes[len(allRes)-1]
 	st := "unknown"
